@@ -48,7 +48,7 @@ Inductive cmpop := CLt | CLe | CGt | CGe | CEq | CNe.
 
 (** comprehensions: [e for x in it] (a list), all(e for x in it), any(e for x in it);
     all / any stop at the first deciding element, as the generator forms do *)
-Inductive comp_kind := CList | CAll | CAny.
+Inductive comp_kind := CList | CAll | CAny | CConcat.   (* CConcat: the elements are lists, concatenated (several for clauses) *)
 
 Inductive expr :=
 | EVar (x : string)
@@ -218,7 +218,7 @@ Definition truthy (v : val) : option bool :=
 
 Fixpoint comp_loop (k : comp_kind) (f : val -> option (option val)) (vs : list val) : option (option val) :=
   match vs with
-  | [] => Some (Some (match k with CList => VL [] | CAll => VB true | CAny => VB false end))
+  | [] => Some (Some (match k with CList | CConcat => VL [] | CAll => VB true | CAny => VB false end))
   | v :: t =>
       match f v with
       | Some (Some b) =>
@@ -227,6 +227,10 @@ Fixpoint comp_loop (k : comp_kind) (f : val -> option (option val)) (vs : list v
                      | Some (Some (VL r)) => Some (Some (VL (b :: r)))
                      | Some (Some _) => None
                      | o => o end
+          | CConcat => match b, comp_loop k f t with
+                       | VL l, Some (Some (VL r)) => Some (Some (VL (l ++ r)))
+                       | VL _, Some None => Some None
+                       | _, _ => None end
           | CAll => match truthy b with
                     | Some true => comp_loop k f t
                     | Some false => Some (Some (VB false))
@@ -361,6 +365,20 @@ Fixpoint ones_like (v : val) : option val :=
   | _ => None
   end.
 
+(** sorted(seq, key=sum): a stable sort of sequences of ints by their sum *)
+Definition sum_key (v : val) : option Z :=
+  match v with
+  | VT l | VL l => fold_right (fun x acc => match x, acc with VZ z, Some a => Some (z + a)%Z | _, _ => None end) (Some 0%Z) l
+  | _ => None
+  end.
+Fixpoint insert_key (kx : Z) (x : val) (l : list (Z * val)) : list (Z * val) :=
+  match l with
+  | [] => [(kx, x)]
+  | (ky, y) :: t => if (kx <=? ky)%Z then (kx, x) :: (ky, y) :: t else (ky, y) :: insert_key kx x t
+  end.
+Fixpoint sort_keyed (l : list (Z * val)) : list (Z * val) :=
+  match l with [] => [] | (k, x) :: t => insert_key k x (sort_keyed t) end.
+
 Fixpoint enumerate_from (i : Z) (l : list val) : list val :=
   match l with [] => [] | x :: t => VT [VZ i; x] :: enumerate_from (i + 1) t end.
 
@@ -456,6 +474,15 @@ Definition call (f : string) (args : list val) : option (option val) :=   (* Non
     end
   else if is "np.ones_like" then
     match args with [VA l] => match ones_like (VA l) with Some a => Some (Some a) | None => None end | _ => None end
+  else if is "sorted,key=sum" then
+    match args with
+    | [v] => match seq_of v with
+             | Some l => match map_opt (fun x => option_map (fun k => (k, x)) (sum_key x)) l with
+                         | Some kl => Some (Some (VL (map snd (sort_keyed kl))))
+                         | None => None end
+             | None => None end
+    | _ => None
+    end
   else if is "range" then
     match args with
     | [VZ n] => Some (Some (VL (map (fun i => VZ (Z.of_nat i)) (seq 0 (Z.to_nat n)))))
